@@ -22,6 +22,7 @@ theorem detect_fault_surfaced (r : Reader) (f : Nat) (hk : r.kind ≠ .bufio) (h
   | bufio => exact absurd hkind hk
   | seek => simp [hf, h1, h2, h3]
   | plain => simp [hf, h1, h2, h3]
+  | bufioSmall => simp [hf, h1, h2, h3]
 
 /-- `NextPacket` passes the error on unchanged in class -/
 theorem nextPacket_surfaces (d : Demux) (size f : Nat) (hs : d.packetSize = some size) (hf : d.r.faultActive = some f)
